@@ -28,6 +28,18 @@ CLAIMED = {
     "C10": ("symbolic execution of the real solve_hungarian with every matrix entry an unbounded SMT Int/Real; optimality as explicit conjunction over all matchings, discharged by z3 per path",
             "Bounded model checking: for every shape up to 3x3 (+1x4, 4x1; thorough to 4x4), both directions and EVERY matrix of that shape (unbounded ints and reals), the assignment is a matching of size min(r,c), the objective is the sum of chosen entries and no matching is better.",
             GEN_NOTE, "DESIGN.md 4/C10"),
+    "C07": ("symbolic execution of the real solve_exact_cover/_build_links/_cover/_uncover with every matrix cell a symbolic Bool and max_solutions/max_iter symbolic Ints; z3 model enumeration of exact covers as oracle",
+            "Bounded model checking: every 0/1 matrix of the shapes in the bound, secondary subsets, find_all on/off; every returned selection is an exact cover, complete find_all lists all covers once, INFEASIBLE iff none, status mapping for all limit values, links restored after a complete search, cover/uncover inverse law.",
+            GEN_NOTE, "DESIGN.md 4/C07"),
+    "C11": ("symbolic execution of dijkstra/astar/astar_grid/bfs/dfs/bellman_ford/floyd_warshall/dijkstra_edges with lazily forked arc presence and unbounded symbolic weights, heuristic values, max_cost, max_iter; optimality against the explicit list of simple paths/cycles via z3",
+            "Bounded model checking: on the potential graphs of the bound, for EVERY arc subset (lazy) and EVERY weight vector / consistent heuristic / limit value: exact distances, genuine paths, INFEASIBLE iff unreachable, UNBOUNDED iff (reachable) negative cycle; grids: every layout of the shapes with symbolic terrain cost.",
+            GEN_NOTE, "DESIGN.md 4/C11"),
+    "C13": ("symbolic execution of kruskal (Python back-end) and prim with every edge weight an unbounded SMT Real; minimality against every spanning tree/forest of the multigraph via z3",
+            "Bounded model checking: every simple graph on <=4 nodes plus named multigraphs, all weights: n-1 input edges, acyclic, spanning, objective = total weight <= every spanning tree; disconnected -> INFEASIBLE / minimum forest with allow_forest.",
+            GEN_NOTE, "DESIGN.md 4/C13"),
+    "C16": ("symbolic execution of solve_knapsack (values unbounded symbolic Reals, weights/capacity enumerated) and solve_bin_pack (sizes and capacity symbolic Reals); optimal-label and 11/9 bound against explicit subset / set-partition enumeration via z3",
+            "Bounded model checking: knapsack n<=3 exhaustive over weights 0..3, capacity 0..5 (+sampled n=4, decimal grid) for ALL value vectors; bin packing n<=4, all four heuristics and aliases, ALL sizes/capacities.",
+            GEN_NOTE, "DESIGN.md 4/C16"),
     "C20": ("inductive step from an arbitrary valid state, symbolic execution of UnionFind/FenwickTree methods with z3 (parents, ranks, array contents, operands symbolic)",
             "Bounded model checking of the real methods: for every n in the bound, every state satisfying the representation invariant, every operand and every value, z3 proves RI is preserved and the answer equals the abstract partition / array answer; base case (constructors) proved for the same n. One inductive step covers histories of any length.",
             GEN_NOTE + " n bounded (UnionFind <=4 quick/<=6 thorough, Fenwick <=8/<=16).",
